@@ -5,9 +5,9 @@ def _alts(fam):
     # see lib/props/C12.py: observed-key is the registry key the unchanged tree computes (it omits
     # UseClusterSize); allowed only while known_findings.json lists "key-collision" as open for C13.
     return [
-        dict(name="observed-key", cfg={"quick": f"MC_Samplers_{fam}_obs.cfg", "thorough": f"MC_Samplers_{fam}_obs_big.cfg"}),
         dict(name="ideal-key", cfg={"quick": f"MC_Samplers_{fam}_ideal.cfg", "thorough": f"MC_Samplers_{fam}_ideal_big.cfg"}),
         dict(name="ideal-key-per-rule", cfg={"quick": f"MC_Samplers_{fam}_noshare.cfg", "thorough": f"MC_Samplers_{fam}_noshare_big.cfg"}),
+        dict(name="observed-key", cfg={"quick": f"MC_Samplers_{fam}_obs.cfg", "thorough": f"MC_Samplers_{fam}_obs_big.cfg"}),
     ]
 
 
